@@ -182,6 +182,7 @@ func Main() {
 		}
 		r.Cases("prefetch-race", 4000, core.Opts{Procs: 16, Race: true, StallSec: 300, Env: []string{"GORACE=halt_on_error=1"}}, raceHistory)
 	}
+	r.Floor("snapshot_trees_reloaded_from_journal", 100)
 	r.Floor("reverts_that_changed_an_observable", 1000)
 	r.Floor("revert_vs_snapshot_time_checks", 1000)
 	r.Floor("readback_through_snapshot_layer", 500)
